@@ -67,6 +67,22 @@ PROPS = {
         "mc": L0_QUICK + L0_THOROUGH + [mc("mc", "FloatsMC.tla", "FloatsMC.cfg", workers=2)],
         "drivers": [drv("conv", "debug"), drv("conv", "release", tiers=T)],
     },
+    "C11": {
+        "mc": L0_QUICK + L0_THOROUGH,
+        "drivers": [drv("roots", "debug"), drv("roots", "debug", features=["rand", "serde"]), drv("roots", "release", tiers=T)],
+    },
+    "C12": {
+        "mc": L0_QUICK + L0_THOROUGH,
+        "drivers": [drv("pow", "debug"), drv("pow", "release", tiers=T)],
+    },
+    "C13": {
+        "mc": L0_QUICK + L0_THOROUGH,
+        "drivers": [drv("gcd", "debug"), drv("gcd", "release", tiers=T)],
+    },
+    "C19": {
+        "mc": L0_QUICK + L0_THOROUGH,
+        "drivers": [drv("sign", "debug"), drv("sign", "release", tiers=T)],
+    },
 }
 
 # which properties own the value rule of an operation (a BAD event is a violation only for an owner)
@@ -86,7 +102,10 @@ own("C05", "modpow modinv")
 own("C06", "to_str_radix fmt to_radix_le to_radix_be parse from_radix_le from_radix_be")
 own("C08", "to_prim to_prim_val to_biguint to_biguint_val to_bigint to_f64 to_f32 from_prim from_float")
 own("C09", "from_bytes_le from_bytes_be new_u32 from_signed_bytes_le from_signed_bytes_be to_bytes_le to_bytes_be to_u32_digits to_u64_digits to_signed_bytes_le to_signed_bytes_be iter_collect iter")
-own("C19", "from_biguint clone")
+own("C11", "sqrt cbrt nth_root")
+own("C12", "pow pow_big")
+own("C13", "gcd lcm gcd_lcm extended_gcd extended_gcd_lcm next_multiple_of prev_multiple_of is_multiple_of is_even is_odd inc dec")
+own("C19", "from_biguint clone neg abs signum is_positive is_negative sign magnitude into_parts abs_sub is_zero is_one set_zero set_one const sign_neg sign_mul to_biguint to_bigint")
 own("C04", "clone")
 
 # properties whose statement itself names a must-panic case (others leave missing panics to C14)
